@@ -277,13 +277,61 @@ Qed.
 Corollary try_to_reorder_no_signal {A} (func : MS A) Pre Post s L r s' :
   sifting_ok' →
   op_spec func (heldn L) Pre Post →
-  Inv s → Counts s L → Pre s → rctx s = false → max_nodes s = None →
+  Inv s → Counts s L → Pre s → rctx s = false →
   try_to_reorder func s = (r, s') →
   r ≠ Err ENeedsReordering.
 Proof.
-  intros Hs Hop HI HC HP Hc Hmx Hrun.
-  destruct (try_to_reorder_correct func Pre Post s L r s' Hs Hop HI HC HP Hc Hmx Hrun)
-    as [->|(a&->&_)]; done.
+  (* for EVERY value of [max_nodes]: with a bounded table the additional
+     outcome is [Err ERuntime] (first attempt, sifting, or second attempt),
+     never the signal *)
+  intros Hsift Hop HI HC HP Hctx.
+  set (K := heldn L) in *.
+  unfold try_to_reorder. cbn [bind get modify]. unfold bind at 1, catch at 1.
+  set (s0 := s <| rctx := true |>).
+  assert (HI0 : Inv s0) by (by apply Inv_rctx).
+  assert (HC0 : Counts s0 L) by (by apply (Counts_same s)).
+  assert (Hk0 : keeps K s s0) by apply keeps_rctx.
+  assert (HP0 : Pre s0) by (by apply (pre_stable _ _ _ _ Hop s s0)).
+  destruct (func s0) as [r1 s1] eqn:E1.
+  destruct (spec_on _ _ _ _ Hop s0 r1 s1 HI0 HP0 eq_refl E1) as (HI1&He1&Hf1&HCs1&Hr1).
+  pose proof (HCs1 L HC0) as HC1.
+  assert (He01 : extends s s1) by done.
+  cbn [bind modify]. rewrite Hctx.
+  destruct r1 as [a|e].
+  { unfold ret. by intros [= <- <-]. }
+  case_decide as Hd; cycle 1.
+  { unfold raise. intros [= <- <-] [= ->]. by apply Hd. }
+  destruct Hd as [-> _].
+  cbn [bind get modify].
+  set (s2 := s1 <| rctx := false |> <| last_len := None |>).
+  assert (Hsame2 : same_tables s1 s2) by (by repeat split).
+  assert (HI2 : Inv s2) by (by apply (Inv_same s1)).
+  assert (HC2 : Counts s2 L) by (by apply (Counts_same s1)).
+  assert (He02 : extends s s2) by done.
+  assert (Hk2 : keeps K s s2) by (by apply keeps_extends).
+  destruct (reorder None s2) as [r3 s3] eqn:E3.
+  destruct (Hsift s2 L r3 s3 HI2 HC2 eq_refl E3)
+    as [->|([->|(->&_)]&HI3&HC3&Hll3&Hr3&Hmx3&Hk3)].
+  { rewrite (bind_ok _ _ _ _ _ (catch_run _ _ _ _ E3)). cbn [bind modify raise].
+    by intros [= <- <-]. }
+  2:{ rewrite (bind_ok _ _ _ _ _ (catch_run _ _ _ _ E3)). cbn [bind modify raise].
+      by intros [= <- <-]. }
+  rewrite (bind_ok _ _ _ _ _ (catch_run _ _ _ _ E3)). cbn [bind ret get modify].
+  unfold bind at 1, catch at 1.
+  set (s3' := s3 <| rctx := true |>).
+  assert (HI3' : Inv s3') by (by apply Inv_rctx).
+  assert (Hk3' : keeps K s s3').
+  { apply (keeps_same_r K s s3); [by repeat split|].
+    by apply (keeps_trans K K s s2 s3). }
+  assert (HP3 : Pre s3') by (by apply (pre_stable _ _ _ _ Hop s s3')).
+  destruct (func s3') as [r4 s4] eqn:E4.
+  destruct (spec_on _ _ _ _ Hop s3' r4 s4 HI3' HP3 eq_refl E4) as (HI4&He4&Hf4&HCs4&Hr4).
+  cbn [bind modify].
+  destruct r4 as [a|e]; cycle 1.
+  { (* requests are off in the second attempt: only [ERuntime] is possible *)
+    destruct (benign_off s3' e Hll3 Hr4) as [-> _].
+    cbn [reraise raise]. unfold raise. by intros [= <- <-]. }
+  cbn [reraise bind ret modify]. unfold ret. by intros [= <- <-].
 Qed.
 
 (** ** Instance: [ite] *)
